@@ -3,6 +3,8 @@ C16 — property theorems (symbolic dimension expressions).
 -/
 import IrVerif.Model.SymExpr
 import IrVerif.Lemmas.SymExprArith
+import IrVerif.Lemmas.SymExprSound
+import IrVerif.Lemmas.SymExprPrint
 namespace IrVerif.SymExpr
 
 /-- **C16_partial**: binding some symbols first and the rest later gives the value of binding
@@ -98,5 +100,90 @@ theorem C16_int_ops (a b : Int) (x : Rat) :
         simp [h, min_eq_left h']
       · have h' : b ≤ a := by have : (b : Rat) < a := not_le.mp h; exact le_of_lt (by exact_mod_cast this)
         simp [h, min_eq_right h']
+
+
+/-- **C16_parser_sound_complete**: the parser decides exactly the documented grammar and gives
+    every sentence its standard meaning.  For every derivation tree `d` of
+
+        expr -> term (('+'|'-') term)*        term -> unary (('*'|'/'|'//'|'%') unary)*
+        unary -> '-' unary | power            power -> primary ('**' unary)?
+        primary -> NUMBER | IDENT | '(' expr ')' | f '(' args ')'     (function table with arities)
+
+    `parseTokens (flatten d) = some (sem d)`, where `sem` is the standard reading (iterations
+    associate to the left, `**` to the right and binds tighter than unary minus); and a token
+    list with no derivation is rejected.  No bound on size or depth: the fuel `parseTokens`
+    starts with is proved sufficient. -/
+theorem C16_parser_sound_complete :
+    (∀ d : D .expr, parseTokens d.flatten = some (d.sem : Expr)) ∧
+    (∀ ts : List Tok, (¬ ∃ d : D .expr, d.flatten = ts) → parseTokens ts = none) ∧
+    (∀ (ts : List Tok) (e : Expr), parseTokens ts = some e ↔
+      ∃ d : D .expr, d.flatten = ts ∧ (d.sem : Expr) = e) := by
+  refine ⟨parseTokens_complete, ?_, ?_⟩
+  · intro ts hno
+    cases h : parseTokens ts with
+    | none => rfl
+    | some e =>
+      obtain ⟨d, hd, _⟩ := parseTokens_sound h
+      exact absurd ⟨d, hd⟩ hno
+  · intro ts e
+    constructor
+    · exact parseTokens_sound
+    · rintro ⟨d, rfl, rfl⟩
+      exact parseTokens_complete d
+
+/-- precedence and associativity are the standard ones: concrete readings of the grammar -/
+example : parseTokens [.op .minus, .ident "x", .op .dstar, .num 2]
+    = some (.un .neg (.bin .pow (.sym "x") (.num 2))) := by decide
+example : parseTokens [.num 2, .op .dstar, .num 3, .op .dstar, .num 2]
+    = some (.bin .pow (.num 2) (.bin .pow (.num 3) (.num 2))) := by decide
+example : parseTokens [.ident "a", .op .minus, .ident "b", .op .minus, .ident "c"]
+    = some (.bin .sub (.bin .sub (.sym "a") (.sym "b")) (.sym "c")) := by decide
+example : parseTokens [.ident "a", .op .dslash, .ident "b", .op .percent, .ident "c"]
+    = some (.bin .mod (.bin .fdiv (.sym "a") (.sym "b")) (.sym "c")) := by decide
+/-- non-vacuity of the rejection half: a token list without derivation exists -/
+example : parseTokens [.ident "a", .ident "b"] = none := by decide
+example : ¬ ∃ d : D .expr, d.flatten = [.ident "a", .ident "b"] := by
+  rintro ⟨d, hd⟩
+  have h := parseTokens_complete d
+  rw [hd] at h
+  have hn : parseTokens [.ident "a", .ident "b"] = none := by decide
+  rw [hn] at h
+  cases h
+
+theorem eval_norm (env : Env) (e : Expr) : eval env (norm e) = eval env e := by
+  induction e with
+  | num n =>
+    by_cases hn : n < 0
+    · have h1 : ((n.natAbs : Nat) : Int) = -n := Int.ofNat_natAbs_of_nonpos (Int.le_of_lt hn)
+      have h : (-((((n.natAbs : Nat) : Int)) : Rat)) = (n : Rat) := by
+        rw [h1]; push_cast; ring
+      simp only [norm, hn, if_true, eval, evalUn]
+      exact congrArg some h
+    · simp [norm, hn]
+  | sym s => rfl
+  | inf b => rfl
+  | un o a ih =>
+    cases o with
+    | trunc =>
+      simp only [norm, eval, ih]
+      cases eval env a with
+      | none => rfl
+      | some x => simp [evalUn, evalBin, sign_mul_floor_abs]
+    | _ => simp only [norm, eval, ih]
+  | bin o a b iha ihb => simp only [norm, eval, iha, ihb]
+
+/-- **C16_print_parse**: printing with minimal parentheses and parsing back preserves every
+    evaluation.  `parseTokens (pp e)` succeeds for every expression, returns `norm e` (negative
+    literals read back as negations, `trunc` as `sign * floor(Abs)`), and `norm e` evaluates like
+    `e` under every binding (complete or partial: unbound symbols give "no value" on both sides). -/
+theorem C16_print_parse (e : Expr) :
+    parseTokens (pp e) = some (norm e) ∧ ∀ env : Env, eval env (norm e) = eval env e :=
+  ⟨parseTokens_pp e, fun env => eval_norm env e⟩
+
+/-- parentheses are really minimal where it matters: `-(x**2)` prints without, `(-x)**2` with -/
+example : pp (.un .neg (.bin .pow (.sym "x") (.num 2))) = [.op .minus, .ident "x", .op .dstar, .num 2] := by
+  decide
+example : pp (.bin .pow (.un .neg (.sym "x")) (.num 2))
+    = [.lparen, .op .minus, .ident "x", .rparen, .op .dstar, .num 2] := by decide
 
 end IrVerif.SymExpr
